@@ -351,4 +351,38 @@ def run(chk, tier, seed, replay):
             if len(chk.cov["samples"]) < 4 and kind == "enum":
                 chk.sample({"case": k, "contract_terms": doc, "observed": got})
         chk.cov["traces_validated_against_impl"] += len(shards[i])
+    # Sum / Product fold with THE TYPE'S OWN Add / Mul (C10: "equal folding the iterator with Add / Mul starting from the field-wise
+    # empty sum / product"): types whose operator is hand-written and is NOT the field-wise one - a derive that sums the fields
+    # with the field type's own Sum instead gives another value. The expectation is that very fold, done in the probe.
+    own = []
+    for nf, body_, ctor in ((1, "(pub Tag)", "N(Tag({a}))"), (1, "{ pub a: Tag }", "N {{ a: Tag({a}) }}"), (2, "(pub Tag, pub Tag2)", "N(Tag({a}), Tag2({b}))")):
+        for d, tr, m, op in (("Sum", "Add", "sum", "add"), ("Product", "Mul", "product", "mul")):
+            k = f"own_operator:{d}:{nf}:{'named' if '{' in body_ else 'tuple'}"
+            fields = ["0"] if nf == 1 and "(" in body_ else (["a"] if nf == 1 else ["0", "1"])
+            mixed = ", ".join(f"{('Tag', 'Tag2')[j]}(mix(77, self.{f}.0, r.{f}.0))" for j, f in enumerate(fields))
+            newv = ("N(" + mixed + ")") if "(" in body_ else ("N { a: " + mixed + " }")
+            empty = ", ".join(f"core::iter::empty::<{('Tag', 'Tag2')[j]}>().{m}()" for j in range(nf))
+            emptyv = ("N(" + empty + ")") if "(" in body_ else ("N { a: " + empty + " }")
+            rows = []
+            for n_items in range(4):
+                items = ", ".join(ctor.format(a=100 * j + 1, b=100 * j + 2) for j in range(1, n_items + 1))
+                rows.append(f"{{ let items: Vec<N> = vec![{items}]; let got: N = items.iter().copied().{m}(); "
+                            f"let want: N = items.iter().copied().fold({emptyv}, |x, y| core::ops::{tr}::{op}(x, y)); out.push(got == want); }}")
+            own.append((k, f"use super::*;\n#[derive(derive_more::{d}, Clone, Copy, Debug, PartialEq)]\npub struct N{body_}{';' if '(' in body_ else ''}\n"
+                           f"impl core::ops::{tr} for N {{ type Output = N; fn {op}(self, r: N) -> N {{ {newv} }} }}\n"
+                           "pub fn run() { let mut out: Vec<bool> = vec![];\n    " + "\n    ".join(rows) +
+                           f"\n    report({json.dumps(k)}, format!(\"{{:?}}\", out)); }}"))
+    if not replay or json.load(open(replay))["key"].startswith("own_operator:"):
+        if replay:
+            own = [x for x in own if x[0] == json.load(open(replay))["key"]]
+        obs_o, failed_o, _ = vlib.run_case_crate("c10_own", own, prelude=prelude(), target_dir=os.path.join(vlib.BUILD, "target-c10-0"),
+                                                 features=("add", "add_assign", "mul", "mul_assign", "not", "sum"))
+        for k, mod in own:
+            chk.cov["evaluations"] += 1
+            if k in failed_o:
+                chk.deviation(k, "Sum / Product next to a hand-written operator does not compile: " + failed_o[k][0]["message"][:200],
+                              case={"module": mod}, expected="compiles", observed=failed_o[k][:3], tags={"kind": "compile_error"})
+            elif (obs_o.get(k) or {}).get("res") != [True, True, True, True]:
+                chk.deviation(k, "Sum / Product is not the fold of the iterator with the type's own operator from the field-wise empty value",
+                              case={"module": mod}, expected=[True] * 4, observed=obs_o.get(k), tags={"kind": "result"})
     chk.cov["rule"] = "24 operator derives x supported struct/enum shapes x forward; every variant pair / unary operand / 0..MaxItems-item fold"
